@@ -8,8 +8,14 @@ combinational relation the statement gives, evaluated on the settled values of e
 What is demanded (and what is deliberately not):
 
 * "runs" of a caller are never demanded beyond the statement: `done => en and model-ready`,
-  readiness is compared through `<caller>.runnable` while the caller requests, `en & ready & ~done`
-  is only counted.  Exceptions, because the statement itself says so: ConnectTrans transfers
+  `en & ready & ~done` is only counted.  Readiness (`<caller>.runnable` while the caller requests) is
+  compared only where the statement gives it: MethodFilter with use_condition and a false condition
+  is callable; MethodTryProduct is never blocked by its targets; a lone NonexclusiveWrapper caller is
+  callable iff the target is; nothing that must call a non-ready target is callable.  "Refused
+  although every target is ready" (MethodMap, MethodFilter, MethodProduct, simultaneous
+  NonexclusiveWrapper callers) is only counted.  MethodFilter's default is judged when one was
+  passed; MethodProduct's result is judged when a combiner was passed.
+  Exceptions, because the statement itself says so: ConnectTrans transfers
   *exactly when* both methods can run (it is the only transaction, nothing can compete);
   MethodTryProduct calls *exactly* the ready targets whenever it runs; a CrossbarConnectTrans
   leaves no ready-ready pair of unused methods -- maximality is a property of the *eager* scheduler
@@ -128,13 +134,22 @@ class Base(CompScenario):
     prev2_en: dict = {}
     prev2_req = 0
 
-    def caller_ready_check(self, c, stim, obs, ready, why):
-        """Rules 2 and 3: readiness via runnable while requesting; done => en & ready; blocked only counted."""
+    def caller_ready_check(self, c, stim, obs, ready, why, judge="both", count=None):
+        """Rules 2 and 3: readiness via runnable while requesting; done => en & ready; blocked only counted.
+
+        judge: which direction of `callable == ready` the statement gives for this transformer --
+        "both"; "refusal-counted" (callable although not ready is judged, a refusal although ready is
+        only counted under `count`); "none" (both directions only counted).  `done => en & ready` is
+        judged in every mode."""
         en = stim.get(f"{c}.en", 0)
         done = obs[f"{c}.done"]
         if en and ready is not None:
-            self.expect(obs[f"{c}.runnable"] == int(ready), "ready-mismatch",
-                        f"{c}: callable={obs[f'{c}.runnable']} expected {int(ready)} ({why})", port=c)
+            run = obs[f"{c}.runnable"]
+            if judge == "both" or (judge == "refusal-counted" and not ready):
+                self.expect(run == int(ready), "ready-mismatch",
+                            f"{c}: callable={run} expected {int(ready)} ({why})", port=c)
+            elif run != int(ready):
+                self.hit(count if ready else f"{count}_inverse")
         self.expect(not done or (en and ready is not False), "ran-when-not-callable",
                     f"{c}: en={en} ready={ready} done={done} ({why})", port=c)
         if en and ready and not done:
@@ -321,7 +336,9 @@ class MapScen(Base):
 
     def check(self, cyc, stim, obs):
         (te,) = self.readiness_cov(stim, stim.get("c.en", 0))
-        en, done = self.caller_ready_check("c", stim, obs, bool(te), f"target ready={te}")
+        # the statement gives no readiness of the map: only `done => target ready` is judged
+        en, done = self.caller_ready_check("c", stim, obs, bool(te), f"target ready={te}", judge="none",
+                                           count="map_refused_though_target_ready")
         td = obs["t.done"]
         self.expect(td == done, "target-call-mismatch", f"map executed={done} but target executed={td}")
         if done:
@@ -384,13 +401,17 @@ class FilterScen(Base):
         (te,) = self.readiness_cov(stim, stim.get("c.en", 0))
         arg = {f: stim.get(f"c.i.{f}", 0) for f, _ in self.il}
         cond = int(self.cpy(arg))
+        judge = "refusal-counted"
         if cond:
-            ready = bool(te)  # the target has to be called, so it has to be callable
+            # the target has to be called, so it has to be callable; that the filter *is* callable when
+            # the target is ready is not stated -> a refusal is counted
+            ready = bool(te)
         elif self.uc:
-            ready = True  # "not blocking on the target when use_condition is set"
+            ready, judge = True, "both"  # "not blocking on the target when use_condition is set"
         else:
             ready = None if not te else True  # blocking on a non-ready target is left open by the statement
-        en, done = self.caller_ready_check("c", stim, obs, ready, f"cond={cond} target ready={te} use_condition={self.uc}")
+        en, done = self.caller_ready_check("c", stim, obs, ready, f"cond={cond} target ready={te} use_condition={self.uc}",
+                                           judge=judge, count="filter_refused_though_target_ready")
         td = obs["t.done"]
         self.expect(td == (done & cond), "target-call-mismatch",
                     f"filter executed={done} cond={cond} but target executed={td}: target is called exactly when the condition holds")
@@ -403,7 +424,11 @@ class FilterScen(Base):
             self.expect(got == ret, "result-mismatch", f"caller received {got}, target returned {ret}")
         if done and not cond:
             self.hit("filter_default_returned")
-            self.expect(got == self.default, "default-mismatch", f"condition false: caller received {got}, default is {self.default}")
+            if self.cfg["default"] is not None:  # "returning the default": judged for a default that was given
+                self.expect(got == self.default, "default-mismatch",
+                            f"condition false: caller received {got}, default is {self.default}")
+            elif got != self.default:
+                self.hit("filter_unspecified_default_not_zero")
             if not te:
                 self.hit("filter_cond_false_target_not_ready_ran")
         if en and not cond and not te and not done and not self.uc:
@@ -457,8 +482,12 @@ class NonexScen(Base):
         reqs = [stim.get(f"{n}.en", 0) for n in self.cn]
         (te,) = self.readiness_cov(stim, int(any(reqs)))
         dones = []
+        # "forwards calls": a lone caller is callable iff the target is; that several callers of one cycle
+        # are all callable is not stated -> a refusal among simultaneous callers is counted
+        judge = "refusal-counted" if sum(reqs) >= 2 else "both"
         for n in self.cn:
-            _, d = self.caller_ready_check(n, stim, obs, bool(te), f"target ready={te}")
+            _, d = self.caller_ready_check(n, stim, obs, bool(te), f"target ready={te}", judge=judge,
+                                           count="nonexclusive_simultaneous_caller_refused")
             dones.append(d)
         td = obs["t.done"]
         self.expect(td == int(any(dones)), "target-call-mismatch", f"callers executed={dones} but target executed={td}")
@@ -524,7 +553,9 @@ class ProductScen(Base):
 
     def check(self, cyc, stim, obs):
         te = self.readiness_cov(stim, stim.get("c.en", 0))
-        en, done = self.caller_ready_check("c", stim, obs, all(te), f"targets ready={te}")
+        # "calls all targets": it cannot run unless all are ready; that it can whenever all are is not stated
+        en, done = self.caller_ready_check("c", stim, obs, all(te), f"targets ready={te}", judge="refusal-counted",
+                                           count="product_refused_though_all_targets_ready")
         td = [obs[f"{t}.done"] for t in self.targets]
         self.expect(all(d == done for d in td), "target-call-mismatch",
                     f"product executed={done} but targets executed={td}: all targets are called")
@@ -546,9 +577,13 @@ class ProductScen(Base):
             elif comb == "last":
                 want = rets[-1]
             else:
-                want = rets[0]
+                want = None  # no combiner: the statement does not say which result is returned
             got = self.vals(obs, "c.o", self.mol)
-            self.expect(got == want, "result-mismatch", f"caller received {got}, expected {want} from target results {rets}")
+            if want is None:
+                self.hit("product_no_combiner_result_is_first_target" if got == rets[0]
+                         else "product_no_combiner_result_is_not_first_target")
+            else:
+                self.expect(got == want, "result-mismatch", f"caller received {got}, expected {want} from target results {rets}")
         self.visit(("product", en, tuple(te), done), nontrivial=bool(en))
 
 
@@ -736,7 +771,9 @@ class Prop(PropBase):
     stubs = ["cycle driver (readiness patterns, returned data, call arguments)",
              "python functions mirroring the map / condition / combiner functions given to the transformers"]
     assumptions = [
-        "CrossbarConnectTrans maximality is demanded only under the eager scheduler (it is a scheduler property)",
+        "CrossbarConnectTrans: 'transfers exactly when both can run' is read as: no pair of ready, unused methods of "
+        "the two sides is left in a cycle (maximal matching); demanded only under the eager scheduler, which runs every "
+        "runnable non-conflicting transaction -- under round-robin only safety (matching + data) is checked",
         "MethodFilter without use_condition: blocking on a non-ready target while the condition is false is accepted either way",
         "Collector: a result is reported lost only after 4 cycles without any movement while the caller asks",
     ]
